@@ -19,6 +19,7 @@ def _calls(node: ast.AST, attr: str) -> List[ast.Call]:
 
 
 def check(prog: Program, rep: Report) -> None:
+    check_tagger_switch(prog, rep)
     cls = prog.class_named("TagActivator")
     # canonical forms: private helpers inlined, locals propagated -- the accounting is a property of what a routine does
     methods = {name: canon(prog, cls, fn) for name, fn in cls.methods.items()}
@@ -251,6 +252,39 @@ def check(prog: Program, rep: Report) -> None:
                 it_ok = isinstance(up, ast.For) and self_attr(up.iter) is not None
                 rep.ob("R9.4-update-all-states", it_ok, loc, f"{fn.name}: updates every internal state",
                        "the update loop must run over all internal states")
+
+
+def check_tagger_switch(prog: Program, rep: Report) -> None:
+    """
+    R9.5: activate() / deactivate() of a tagger are idempotent state assignments.  The activator applies the (de)activate lists
+    of a tagger whenever an event of that tagger precedes (the start-of-run lists are applied twice), and the configuration
+    analysis (R9.1) models activation as a function of these lists alone.  That is only true if what the two methods write
+    does not depend on what they wrote before: no attribute written by activate / deactivate is read on a right-hand side in
+    either of them.
+    """
+    n = 0
+    for ci in [c for c in prog.classes if prog.is_subclass(c, "Tagger")]:
+        sw = {name: canon(prog, ci, ci.methods[name], helpers=False) for name in ("activate", "deactivate") if name in ci.methods}
+        if not sw:
+            continue
+        written = {self_attr(t) for fn in sw.values() for a in ast.walk(fn) if isinstance(a, (ast.Assign, ast.AugAssign, ast.AnnAssign))
+                   for t in (a.targets if isinstance(a, ast.Assign) else [a.target]) if self_attr(t)}
+        for name, fn in sw.items():
+            n += 1
+            reads = []
+            for a in ast.walk(fn):
+                if isinstance(a, (ast.Assign, ast.AugAssign, ast.AnnAssign)) and a.value is not None:
+                    reads += [x for x in ast.walk(a.value) if self_attr(x) in written]
+                    if isinstance(a, ast.AugAssign) and self_attr(a.target) in written:
+                        reads.append(a.target)
+            rep.ob("R9.5-switch-idempotent", not reads, Loc(ci.file, fn.lineno, f"{ci.name}.{name}"),
+                   f"{ci.name}.{name}: writes {sorted(written)}" + (f", reads {sorted({self_attr(x) for x in reads})}" if reads else ""),
+                   f"{name}() computes the new state of the tagger from a state that activate / deactivate themselves change "
+                   f"({sorted({self_attr(x) for x in reads})}): applying it twice differs from applying it once, but the activator "
+                   f"applies (de)activation lists repeatedly (the start-of-run lists twice) -- a tagger deactivated twice can never "
+                   f"be activated again and its events are missing for the rest of the run")
+    if n < 2:
+        raise AnalysisError("Tagger.activate / Tagger.deactivate not found")
 
 
 def _built_from(cls: ClassInfo, methods: Dict[str, ast.FunctionDef]) -> Dict[str, str]:
